@@ -70,9 +70,13 @@ type SetRef struct {
 type Subject struct {
 	ID  string  `json:"id,omitempty"`
 	Set *SetRef `json:"set,omitempty"`
+	Nil bool    `json:"nil,omitempty"` // no subject at all (an invalid request)
 }
 
 func (s Subject) String() string {
+	if s.Nil {
+		return "<nil>"
+	}
 	if s.Set != nil {
 		return fmt.Sprintf("(%s:%s#%s)", s.Set.NS, s.Set.Obj, s.Set.Rel)
 	}
